@@ -22,12 +22,23 @@ def path_eval(ctx, target, env, start_block=None, stop_at=None):
     full = dict(env)
     # locals with a single definition inherit the value of their defining term
     steps = 0
+    seen_states = set()
     while steps < 400:
         steps += 1
         if cur == tpos[0]:
             return True
         if cur == f.exit:
             return False
+        # the walk is deterministic under env: coming back to a block in the same state means the target is not on the
+        # path this valuation takes (e.g. the other arm of an if inside a loop)
+        try:
+            state = (cur, frozenset(full.items()))
+        except TypeError:
+            state = None
+        if state is not None:
+            if state in seen_states:
+                return False
+            seen_states.add(state)
         b = f.blocks[cur]
         # locals assigned on the way take the value of their right-hand side in the finite domain
         for e in b.elems:
@@ -463,43 +474,95 @@ def rule_selfloop_convention(m):
                 else:
                     res.broken('F-ORD.iii: %s is neither an accumulation loop nor the closed form size() + count(self)' % f.display())
                 continue
-            if len(incs) != 1:
-                res.broken('F-ORD.iii: expected one accumulation in %s, found %d' % (f.display(), len(incs)))
+            if len(incs) == 1 and tn.endswith('::getDegree'):
+                # semi-closed form: degree = list.size(); if (flag) degree += count(list, vertex); return degree
+                v = ('var', f.params[0])
+                tgt = ctx.tt.t(incs[0]['c'][0])
+                add = strip_cast(ctx.tt.t(incs[0]['c'][1]))
+                while add[0] == 'cast':
+                    add = strip_cast(add[2])
+                if tgt[0] == 'var' and add[0] == 'call' and add[1] == 'std::count' and len(add[2]) == 3 and strip_cast(add[2][2]) == v:
+                    lst = add[2][0][2] if add[2][0][0] == 'mcall' else None
+                    inits = [ctx.tt.t(d[1]) for d in var_defs(f, tgt[1]) if d[1] >= 0 and f.nodes[d[0]]['k'] == 'DeclStmt']
+                    size_init = len(inits) == 1 and strip_cast(inits[0])[0] == 'mcall' and strip_cast(inits[0])[1] == 'std::list::size' and \
+                        strip_cast(inits[0])[2] == lst and lst is not None and lst[0] == 'idx' and lst[2] == v
+                    only_flag = all(path_eval(ctx, incs[0]['i'], {flags[0]: fl}) is fl for fl in (True, False))
+                    rets = [n for n in f.nodes if n['k'] == 'ReturnStmt' and f.children(n['i'])]
+                    ret_ok = len(rets) == 1 and ctx.tt.t(f.children(rets[0]['i'])[0]) == tgt and len(var_defs(f, tgt[1])) == 2
+                    if size_init and only_flag and ret_ok:
+                        res.ok(dict(function=f.display(), closed_form='degree = size(); if (twice) degree += count(list, vertex)'), fn=f.display())
+                    else:
+                        res.broken('F-ORD.iii: %s adds count(list, vertex) but not as `size() [+ count when self-loops count twice]`' % f.display())
+                    continue
+            # every increment of the accumulator in the loop body (`+= e`, `++`), summed along the path each valuation takes:
+            # the ternary, the if/else and the split forms are the same function of (loop?, flag)
+            tgt0 = ctx.tt.t(incs[0]['c'][0])
+            steps = [(n, ctx.unconst(ctx.resolve(ctx.tt.t(n['c'][1])))) for n in incs if ctx.tt.t(n['c'][0]) == tgt0]
+            for n in f.nodes:
+                if n['k'] == 'UnaryOperator' and n.get('op') == '++' and ctx.tt.t(n['c'][0]) == tgt0 and \
+                        not any(f.nodes[a]['k'] in ('ForStmt',) and f.nodes[a].get('inc', -1) in ([n['i']] + list(f.ancestors(n['i'])))
+                                for a in f.ancestors(n['i'])):
+                    steps.append((n, ('int', 1)))
+            if len(steps) != len(incs) + len([1 for n2, r2 in steps if r2 == ('int', 1) and n2['k'] == 'UnaryOperator']):
+                res.broken('F-ORD.iii: expected the accumulations of %s to update one accumulator' % f.display())
                 continue
-            rhs = ctx.unconst(ctx.resolve(ctx.tt.t(incs[0]['c'][1])))
-            # the two vertex terms: operands of the equality inside the increment
-            eqs = [st for st in subterms(rhs) if st[0] == 'bin' and st[1] == '==']
-            if len(eqs) != 1:
+            # the two vertex terms: operands of the equality that tells a loop from another entry (in an increment or a guard)
+            eqs = []
+            for n2, r2 in steps:
+                eqs += [st for st in subterms(r2) if st[0] == 'bin' and st[1] in ('==', '!=')]
+                for dep in f.region(n2['i']):
+                    a0 = f.branch_atom(dep[0])
+                    if a0 is not None:
+                        def _vertexish(x):
+                            return x[0] == 'deref' or (x[0] == 'var' and f.unit.decl(x[1]).get('ctype', '').replace('const ', '').replace('&', '').strip() == 'unsigned int')
+                        eqs += [st for st in subterms(ctx.unconst(ctx.resolve(ctx.tt.t(a0)))) if st[0] == 'bin' and st[1] in ('==', '!=')
+                                and _vertexish(st[2]) and _vertexish(st[3])]
+            pairs = {frozenset((e[2], e[3])) for e in eqs}
+            if len(pairs) != 1:
                 res.broken('F-ORD.iii: increment of %s has no loop test' % f.display())
                 continue
             a, b = eqs[0][2], eqs[0][3]
-            mults = [st for st in subterms(rhs) if (st[0] == 'var' and st not in (a, b, flags[0])) or
-                     (st[0] == 'mcall' and st[1].endswith(('::getEdgeLabel', '::getEdgeMultiplicity')))]
+            mults = set()
+            for n2, r2 in steps:
+                mults |= {st for st in subterms(r2) if (st[0] == 'var' and st not in (a, b, flags[0])) or
+                          (st[0] == 'mcall' and st[1].endswith(('::getEdgeLabel', '::getEdgeMultiplicity')))}
             bad = None
             for flag in (True, False):
                 for (va, vb) in ORDERINGS:
                     env = {a: va, b: vb, flags[0]: flag}
                     for mt in mults:
                         env[mt] = 1
-                    reach = path_eval(ctx, incs[0]['i'], env, start_block=None)
-                    v = eval_order(rhs, env)
+                    total = 0
+                    reached_any = False
+                    undecid = False
+                    for n2, r2 in steps:
+                        reach = path_eval(ctx, n2['i'], env, start_block=None)
+                        if reach is None:
+                            undecid = True
+                            continue
+                        if reach:
+                            reached_any = True
+                            v = eval_order(r2, env)
+                            if v is None:
+                                undecid = True
+                            else:
+                                total += int(v)
                     want = 2 if (va == vb and flag) else 1
-                    if reach is False:
+                    if undecid:
+                        bad = 'undecidable'
+                    elif not reached_any:
                         # flag handled by an early return: that return must be the list length (each entry once)
                         if flag:
-                            bad = 'increment not reached with countSelfLoopsTwice=true'
-                        continue
-                    if v is None or reach is None:
-                        bad = 'undecidable'
-                    elif v != want:
-                        bad = 'loop=%s, countSelfLoopsTwice=%s: adds %s, expected %s' % (va == vb, flag, v, want)
+                            bad = bad or 'increment not reached with countSelfLoopsTwice=true'
+                    elif total != want:
+                        bad = bad if bad and bad != 'undecidable' else 'loop=%s, countSelfLoopsTwice=%s: adds %s, expected %s' % (va == vb, flag, total, want)
             if bad == 'undecidable':
                 res.broken('F-ORD.iii: increment of %s cannot be evaluated over the order domain' % f.display())
             elif bad:
-                res.fail(Finding('F-ORD.iii', f.display(), 'self-loop convention', f.nloc(incs[0]['i']),
+                res.fail(Finding('F-ORD.iii', f.display(), 'self-loop convention', f.nloc(steps[0][0]['i']),
                                  'self-loop counting deviates from the documented convention: ' + bad))
             else:
-                res.ok(dict(function=f.display(), increment=f.expr_text(incs[0]['i'])[:90], cases=6)
+                res.ok(dict(function=f.display(), increment=f.expr_text(steps[0][0]['i'])[:90], cases=6, accumulations=len(steps))
                        if len(res.samples) < 6 else None, fn=f.display())
     res.require_sites(4, 'degree / matrix accumulations')
     return res
@@ -930,11 +993,15 @@ def rule_positive_multiplicity(m):
                     if kind == 'L.subAssign':
                         # cur -= m is positive when dominated by cur > m
                         ok = False
+                        from .rules_pair import true_atoms as _ta
                         for (bb, ix) in f.dominating_edges(f.cfg_pos(nid)[0]):
-                            t = ctx.tt.t(f.branch_atom(bb))
-                            if t[0] == 'bin' and t[1] == '>' and strip_cast(t[3]) == val and ix == 0 and \
-                                    ctx.label_read(resolve_locals(ctx, t[2], {}), nid) is not None:
-                                ok = True
+                            for t in _ta(ctx.tt.t(f.branch_atom(bb)), ix == 0):
+                                # cur > m, or its mirror m < cur (also as the false edge of cur <= m)
+                                if t[0] == 'bin' and t[1] == '<':
+                                    t = ('bin', '>', t[3], t[2])
+                                if t[0] == 'bin' and t[1] == '>' and strip_cast(t[3]) == val and \
+                                        ctx.label_read(resolve_locals(ctx, t[2], {}), nid) is not None:
+                                    ok = True
                 if ok:
                     res.ok(dict(function=f.display(), write=ctx.desc(nid), fact='value != 0 on every path'
                                 if kind != 'L.subAssign' else 'current > amount') if len(res.samples) < 8 else None,
@@ -1226,6 +1293,30 @@ def rule_observers(m):
                     outer = [lv for lv, r in loopvars if r == ('fullrange',) or graph_like(f, r)]
                     inner = [(lv, r) for lv, r in loopvars if r[0] == 'mcall' and r[1].endswith(('getOutNeighbours', 'getNeighbours'))
                              or (r[0] == 'idx' and ctx.ev.role(r[1]) == 'A')]
+                    if fact[0] == 'label_loop' and not inner:
+                        # std::accumulate(list(src).begin(), list(src).end(), 0, [..](acc, nb) { return acc + label(src, nb); })
+                        src = P0
+                        for n2 in f.nodes:
+                            if n2['k'] == 'CallExpr' and 'callee' in n2 and f.unit.decl(n2['callee'])['tname'] == 'std::accumulate' and len(n2['args']) == 4:
+                                b0, e0, i0, l0 = (tt.t(x) for x in n2['args'])
+                                lamid = [st for st in subterms(l0) if st[0] == 'lambda']
+                                lst = b0[2] if b0[0] == 'mcall' and b0[1].endswith('::begin') and e0[0] == 'mcall' and e0[1].endswith('::end') and b0[2] == e0[2] else None
+                                if lst is None or not lamid or not ((lst[0] == 'mcall' and lst[3] == (src,)) or (lst[0] == 'idx' and lst[2] == src)):
+                                    continue
+                                L = f.unit.function_for_decl(lamid[0][1])
+                                if L is None or len(L.params) != 2:
+                                    continue
+                                ltt = Terms(L)
+                                lrets = [x for x in L.nodes if x['k'] == 'ReturnStmt' and L.children(x['i'])]
+                                if len(lrets) != 1:
+                                    continue
+                                rt = strip_cast(ltt.t(L.children(lrets[0]['i'])[0]))
+                                acc, nb = ('var', L.params[0]), ('var', L.params[1])
+                                if rt[0] == 'bin' and rt[1] == '+' and acc in (strip_cast(rt[2]), strip_cast(rt[3])) and strip_cast(i0) in (('int', 0), ('ctor', 'unsigned long', (('int', 0),))) or \
+                                        (rt[0] == 'bin' and rt[1] == '+' and acc in (strip_cast(rt[2]), strip_cast(rt[3]))):
+                                    other = strip_cast(rt[3]) if strip_cast(rt[2]) == acc else strip_cast(rt[2])
+                                    if other[0] == 'mcall' and other[1].endswith(('::getEdgeMultiplicity', '::getEdgeLabel')) and other[3][:2] == (src, nb):
+                                        ok = True
                     if fact[0] == 'label_loop':
                         src = P0
                         inner2 = [lv for lv, r in inner if (r[0] == 'mcall' and r[3] == (src,)) or (r[0] == 'idx' and r[2] == src)]
